@@ -43,6 +43,46 @@ def exhaustive_histories(max_len):
       yield pre + list(seq) + [("query", "stats")]
 
 
+def diamond_family():
+  """Deterministic query-ORDER family (no mutation between the questions, one solver): a binding at F, two routes of
+  every length 1..3 from F to a join S, optionally one node of the first route carrying a condition that can never
+  hold, and one that always holds on the other; the same binding asked at two or three nodes in every order, with
+  every query kind.  A fresh replica must give every answer (the path cache and the state memo are shared by the
+  questions)."""
+  out = []
+  for la in (1, 2, 3):
+    for lb in (1, 2, 3):
+      for cpos in [None] + list(range(la)):
+        ops = ["node", "node", "var", "bind 0 never [] 0"]
+        nid = 2
+        arm_a = []
+        prev = 1
+        for i in range(la):
+          ops.append("connect_new %d%s" % (prev, " 0" if cpos == i else ""))
+          arm_a.append(nid)
+          prev = nid
+          nid += 1
+        ops.append("connect_new %d" % prev)
+        s_node = nid
+        nid += 1
+        prev = 1
+        for i in range(lb):
+          ops.append("connect_new %d" % prev)
+          prev = nid
+          nid += 1
+        ops.append("connect %d %d" % (prev, s_node))
+        ops += ["var", "bind 1 g [] 1"]
+        asked = arm_a + [s_node]
+        orders = [(a, b) for a in asked for b in asked if a != b]
+        if len(asked) >= 3:
+          orders += [(asked[-1], asked[0], asked[1]), (asked[1], asked[-1], asked[0])]
+        for order in orders:
+          for kind in ("visible 1 %d", "has %d [1]", "filter 1 %d 1"):
+            out.append([tg.parse_op(t) for t in ops] + [tg.parse_op("query " + kind % n) for n in order]
+                       + [("query", "stats")])
+  return out
+
+
 def load_corpus():
   """corpus/C08/*.json: minimised histories of past disagreements / witnesses; run first."""
   import glob
@@ -184,6 +224,9 @@ def correspond(res, rng, tier):
   corpus = load_corpus()
   if corpus:
     tasks.append((0, "cases", corpus))
+  fam = diamond_family()
+  for i in range(0, len(fam), 400):
+    tasks.append((0, "cases", fam[i:i + 400]))
   chunk = 1500
   for i in range(0, len(ex), chunk):
     tasks.append((0, "cases", ex[i:i + chunk]))
